@@ -412,7 +412,49 @@ func genEraGrid(g *hx.Gen) {
 	}
 }
 
+// genQuorum: the real majority count for every arbiter count up to 36 in both eras, and signature sets for
+// the real RunPrograms: honest ones, ones padded with twins / second signatures of the same arbiter, with
+// garbage, with signatures of non-members.
+func genQuorum(g *hx.Gen, r *hx.Rand) {
+	for era := 0; era <= 1; era++ {
+		for c := 1; c <= 36; c++ {
+			g.Emit("maj %d %d", era, c)
+		}
+	}
+	for i := 0; i < g.N(60, 600); i++ {
+		n := 2 + r.Intn(5)
+		m := 1 + r.Intn(n)
+		keys := shuffle(r, []int{1, 2, 3, 4, 5, 6}[:n])
+		var sigs []string
+		cnt := m - 1 + r.Intn(3)
+		if cnt < 1 {
+			cnt = 1
+		}
+		if cnt > n {
+			cnt = n
+		}
+		distinct := 1 + r.Intn(cnt)
+		for j := 0; j < cnt; j++ {
+			k := keys[j%distinct]
+			switch {
+			case j >= distinct && r.Bool():
+				sigs = append(sigs, fmt.Sprintf("%dt", k))
+			case j >= distinct:
+				sigs = append(sigs, fmt.Sprintf("%df", k))
+			case r.Chance(8):
+				sigs = append(sigs, "x")
+			case r.Chance(8):
+				sigs = append(sigs, fmt.Sprintf("%d", 7+r.Intn(3)))
+			default:
+				sigs = append(sigs, fmt.Sprintf("%d", k))
+			}
+		}
+		g.Emit("sig m=%d n=%d keys=%s sigs=%s", m, n, joinInts(keys, ","), strings.Join(sigs, ","))
+	}
+}
+
 func gen(g *hx.Gen) {
+	genQuorum(g, g.R.Fork(5000000))
 	genV2Subsets(g, g.R.Fork(4000000))
 	genEraGrid(g)
 	for i := 0; i < g.N(300, 3000); i++ {
